@@ -1,7 +1,7 @@
 ----------------------------- MODULE EvalTrace -----------------------------
 (* Development aid: evaluates the reference reader / printer on the events of
    a trace file and prints the results as JSON (lib/tlaeval.py). *)
-EXTENDS Naturals, Sequences, TLC, Json, IOUtils, RefRead, RefPrint
+EXTENDS Naturals, Sequences, RefRead, RefPrint, TLC, Json, IOUtils
 
 Rec == ndJsonDeserialize(IOEnv.TRACE)
 VARIABLE l
